@@ -784,3 +784,34 @@ Example packet_alignment_nonvacuous :
   let s0 := fst (run (create 64) [Write (zrange 0 30); DiscardStride 8]) in
   rp s0 = 24 /\ rp (fst (run s0 [Write (zrange 30 20); ReadMultipleOf 8; Write (zrange 50 9); DiscardStride 8])) = 56.
 Proof. vm_compute. split; reflexivity. Qed.
+
+(* ---- the checker for an arbitrary pointer base is sound in the same sense: only the stride clause mentions the base ---- *)
+Lemma check_step_at_nodiscard base st o b :
+  is_discard o = false -> check_step_at base st o b = check_step st o b.
+Proof. intros Hd. destruct o; try discriminate Hd; reflexivity. Qed.
+
+Lemma check_from_at_nodiscard base h : forall st,
+  no_discards h -> check_from_at base st h = check_from st h.
+Proof.
+  induction h as [|[o b] h IH]; intros st Hnd; [reflexivity|].
+  cbn [check_from_at check_from].
+  rewrite check_step_at_nodiscard by (apply (Hnd o b); now left).
+  destruct (check_step st o b) as [st'|]; [|reflexivity].
+  apply IH. intros o' b' Hin. apply (Hnd o' b'). now right.
+Qed.
+
+Theorem checker_at_sound_prefix base h :
+  C18_check_at base h = true -> no_discards h -> reads_prefix_of_writes h.
+Proof.
+  intros Hc Hnd. apply checker_sound_prefix; [|exact Hnd].
+  unfold C18_check_at in Hc. rewrite check_from_at_nodiscard in Hc by exact Hnd. exact Hc.
+Qed.
+
+Theorem ring_reads_are_prefix_of_writes_at c b ops :
+  2 <= c -> 0 <= b -> (forall o, In o ops -> is_discard o = false) ->
+  reads_prefix_of_writes (combine ops (snd (run (create_at c b) ops))).
+Proof.
+  intros Hc Hb Hnd. apply (checker_at_sound_prefix b).
+  - now apply model_satisfies_checker_at.
+  - intros o ob Hin. apply Hnd. eapply in_combine_l; eauto.
+Qed.
